@@ -297,8 +297,8 @@ def build_model(fam):
     return exe, None
 
 
-def run_model(exe, lines, timeout=1200):
-    p = subprocess.run([exe], input='\n'.join(lines) + '\n', stdout=subprocess.PIPE, stderr=subprocess.PIPE, text=True, timeout=timeout)
+def run_model(exe, lines, timeout=1200, args=()):
+    p = subprocess.run([exe] + list(args), input='\n'.join(lines) + '\n', stdout=subprocess.PIPE, stderr=subprocess.PIPE, text=True, timeout=timeout)
     out = p.stdout.split('\n')
     if out and out[-1] == '':
         out.pop()
@@ -413,7 +413,7 @@ def canon_impl(r):
     return r
 
 
-def correspond(run, family, harness, flagset, model_fam, cases, oracle, nontrivial=None, canon=canon_impl, known=None):
+def correspond(run, family, harness, flagset, model_fam, cases, oracle, nontrivial=None, canon=canon_impl, known=None, model_args=()):
     """Run [cases] through the extracted model and through the C++ harness, diff, and apply the property oracle to
     what the implementation did.  oracle(case, impl_result) -> None | 'description of the failure'.
     known(case, what) -> key string of a listed known finding or None."""
@@ -426,7 +426,7 @@ def correspond(run, family, harness, flagset, model_fam, cases, oracle, nontrivi
         run.broken.append('extracted model %s does not build: %s' % (model_fam, (err or '')[-1500:]))
         return
     t = time.time()
-    mout = run_model(mexe, cases)
+    mout = run_model(mexe, cases, args=model_args)
     tm = time.time() - t
     t = time.time()
     iout = run_impl(hexe, cases)
